@@ -70,8 +70,10 @@ try:
         _r = "VERIF_REPO=<patched tree> ./check %s --tier %s" % (c, a.tier)
         if _r not in meta["ran"]:
             meta["ran"].append(_r)
-        print("check", c, "exit", r.returncode, "DETECTED" if r.returncode == 1 else "MISSED", *lines[:6], sep="\n  ")
-    meta["detected_by"] = [c for c, v in meta["checks"].items() if v["exit"] == 1]
+        verdict = r.returncode == 1 and any(l.startswith("VIOLATION property=%s " % c) for l in lines)
+        meta["checks"][c]["violation_reported"] = verdict
+        print("check", c, "exit", r.returncode, "DETECTED" if verdict else ("MISSED" if r.returncode == 0 else "NO VERDICT (the check failed)"), *lines[:6], sep="\n  ")
+    meta["detected_by"] = [c for c, v in meta["checks"].items() if v.get("violation_reported", v["exit"] == 1 and any(l.startswith("VIOLATION") for l in v["lines"]))]
 finally:
     subprocess.call(["git", "-C", "/repo", "worktree", "remove", "--force", scratch])
 json.dump(meta, open(os.path.join(out, "meta.json"), "w"), indent=1)
